@@ -7,6 +7,9 @@
 (*                     hasSid : BOOLEAN, sid : bytes;                      *)
 (*                     hasRc : BOOLEAN, rc : 4 bytes; hasExp : BOOLEAN]    *)
 (* Abstract request : [app, hbh, e2e; hasSid, sid]                         *)
+(* The handler's answer may lack a Session-Id AVP (a.hasSid = FALSE: a      *)
+(* hand-made DiameterAnswer with a Result-Code only) and may have the E     *)
+(* flag set already; the answer that is sent satisfies SentOk all the same. *)
 (* Decides C12 (with Types.Family for the error-flag rule).                *)
 (***************************************************************************)
 EXTENDS Types
@@ -14,7 +17,8 @@ EXTENDS Types
 Decorate(a, r) ==
     LET ids == [a EXCEPT !.app = r.app, !.hbh = r.hbh, !.e2e = r.e2e]
         sid == IF r.hasSid THEN [ids EXCEPT !.hasSid = TRUE, !.sid = r.sid] ELSE ids
-        err == [sid EXCEPT !.eflag = a.eflag \/ (a.hasRc /\ IsErrorFamily(a.rc))]
+        \* the error flag follows the Result-Code, whatever the handler had set; without a Result-Code it is left as it is
+        err == [sid EXCEPT !.eflag = IF a.hasRc THEN IsErrorFamily(a.rc) ELSE a.eflag]
     IN IF a.hasExp /\ a.hasRc THEN [err EXCEPT !.hasRc = FALSE] ELSE err
 
 \* the property, as a predicate on the answer that is sent
@@ -27,5 +31,6 @@ SentOk(s, a, r) ==
     /\ (s.hasRc => s.rc = a.rc)
     /\ ((a.hasRc /\ ~a.hasExp) => s.hasRc)
 
-ThmDecorate(a, r) == (~a.eflag) => SentOk(Decorate(a, r), a, r)
+\* for EVERY answer a handler may return: with or without a Session-Id of its own, with the E flag already set or not
+ThmDecorate(a, r) == SentOk(Decorate(a, r), a, r)
 =============================================================================
